@@ -387,8 +387,18 @@ def run(ctx, pid, classes, n, length=(10, 28)):
             h = B.History(env, variant)
             if variant == 'mistral' and rng.random() < 0.6:
                 B.mistral_warmup(rng, h)
-            h = B.gen_history(rng, env, variant, rng.randrange(*length), h=h,
-                              p_stop=0.06 if pid == 'C07' else 0.04)
+            h0 = h
+            try:
+                h = B.gen_history(rng, env, variant, rng.randrange(*length), h=h,
+                                  p_stop=0.06 if pid == 'C07' else 0.04)
+            except Exception:       # noqa
+                # the implementation raised while the history was being generated (it is executed as it is
+                # drawn): the events so far plus the bytes being fed are a complete failing script
+                sc = script_of(h0)
+                if getattr(h0, 'last_attempt', None):
+                    sc.append(('bytes', h0.last_attempt))
+                consider(variant, sc)
+                continue
             if pid == 'C07' or rng.random() < 0.5:
                 h.stop()
             sc = script_of(h)
